@@ -1,14 +1,14 @@
 CONSTANTS
   Verbs = {"get", "post", "put", "delete", "patch"}
   Rotate = TRUE
-  PathIds = {"none", "name2", "nameT", "par2", "in2", "in4c"}
+  PathIds = {"none", "name2", "par2", "in2"}
   Bodies = {"", "*", "inner"}
   MaxExtra = 1
-  ReqSetIds = {"mixed", "scalars"}
-  PathValIds = {"i2", "s4"}
+  ReqSetIds = {"mixed"}
+  PathValIds = {"i2", "s2"}
   VarLeaves = {"name", "parent", "inner.name", "inner.kind"}
   Numerics = {FALSE, TRUE}
-  RespTypes = {"A", "B"}
+  RespTypes = {"A"}
   ReplyIds = {"part"}
   Calls = 1
   Mutant = "none"
